@@ -268,6 +268,93 @@ def explore_frames(res, tier, rng, model_ok):
             res.failures.append(dict(cls='close-args', what='build_close_payload is not code_be16 ++ reason', input=list(c), observed=r[:100], expected=want.hex()[:100]))
 
 
+
+# ---------------------------------------------------------------------------------------------
+# histories: several sends in one connection under every negotiated parameter combination, and the
+# same on ONE WebSocket object connected several times (the next connection may negotiate differently)
+
+EXTS = [None, 'permessage-deflate', 'permessage-deflate; client_no_context_takeover', 'permessage-deflate; server_no_context_takeover',
+        'permessage-deflate; client_max_window_bits=9', 'permessage-deflate; client_no_context_takeover; client_max_window_bits=10; server_max_window_bits=11',
+        'permessage-deflate; server_max_window_bits=8; client_max_window_bits=15']
+
+
+def history_scenario(rng, ext, key_seed):
+    base = gen_core.rand_text(rng, rng.choice([12, 40, 300])).decode('utf-8')
+    t1, t2 = 'header: ' + base, base + ' again ' + base
+    b1 = ('bin ' + base).encode('utf-8') + gen_core.rand_bytes(rng, 20)
+    acts = [('send_text', ('s', [ord(c) for c in t1]), True), ('send_binary', ('b', b1), True), ('send_text', ('s', [ord(c) for c in t2]), False),
+            ('send_ping', ('b', b'p' * rng.choice([0, 5, 125]))), ('send_text', ('s', [ord(c) for c in t1]), True), ('send_json', ('obj', {'k': base})),
+            ('send_binary', ('b', b1), True), ('close', 1000, ('b', b'done'))]
+    import json as _json
+    exp = [(1, t1.encode('utf-8'), True), (2, b1, True), (1, t2.encode('utf-8'), False), (9, acts[3][1][1], False), (1, t1.encode('utf-8'), True),
+           (1, _json.dumps({'k': base}).encode('utf-8'), True), (2, b1, True), (8, struct.pack('!H', 1000) + b'done', False)]
+    sc = Scenario([], {2: acts}, prate=0, compress=True)
+    sc.key_seed = key_seed
+    extra = (b'Sec-WebSocket-Extensions: ' + ext.encode() + b'\r\n') if ext else b''
+    sc.env = reads([sc.good_reply(extra)]) + [('wait', 1, ('eof',))]
+    return sc, exp
+
+
+def judge_history(res, trace, exp, negotiated, what, inp):
+    tk = toks(trace)
+    try:
+        i = tk.index(next(t for t in tk if t.startswith('E:ready')))
+    except StopIteration:
+        res.failures.append(dict(cls='history', what='%s: no Ready' % what, input=inp, observed=tk[:6])); return
+    writes = [t for t in tk[i + 1:] if t[:2] in ('W:', 'Z:', 'W!')]
+    results = [t for t in tk[i + 1:] if t.startswith('R:')]
+    if results[:len(exp)] != ['R:ok'] * len(exp) or len(writes) < len(exp):
+        res.failures.append(dict(cls='history', what='%s: %d calls, results %s, %d writes' % (what, len(exp), results[:len(exp)], len(writes)), input=inp)); return
+    for n, ((op, payload, cflag), w) in enumerate(zip(exp, writes)):
+        if negotiated and cflag:
+            if w != 'Z:%d:%s' % (op, payload.hex()):
+                res.failures.append(dict(cls='compressed-send', what='%s: call %d: a peer honouring the negotiated parameters does not restore the payload (or RSV1 missing)' % (what, n), input=inp,
+                                         observed=w[:120], expected=('Z:%d:%s' % (op, payload.hex()))[:120])); return
+            continue
+        if not w.startswith('W:'):
+            res.failures.append(dict(cls='history', what='%s: call %d: RSV1/compression used although not negotiated on this connection or not requested' % (what, n), input=inp, observed=w[:120])); return
+        try:
+            fr = decode_client_frames(bytes.fromhex(w[2:]))
+        except ClientFrameError as e:
+            res.failures.append(dict(cls='history', what='%s: call %d: not a valid client frame: %s' % (what, n, e), input=inp, observed=w[:120])); return
+        f = fr[0] if len(fr) == 1 else None
+        if f is None or (f['fin'], f['rsv1'], f['rsv2'], f['rsv3'], f['opcode']) != (1, 0, 0, 0, op) or f['payload'] != payload:
+            res.failures.append(dict(cls='history', what='%s: call %d: frame does not carry the caller\'s payload with FIN=1, RSV=0' % (what, n), input=inp, observed=w[:120])); return
+
+
+def explore_histories(res, tier, rng, model_ok):
+    from world import scenario_line
+    singles = [history_scenario(rng, ext, 60 + i) + (ext,) for i, ext in enumerate(EXTS)]
+    pairs = coreutil.run_pairs([s for s, _, _ in singles], model_ok)
+    fresh = {}
+    for (sc, exp, ext), (js, line, real, model) in zip(singles, pairs):
+        res.case(('hist', ext), nontrivial=True); res.count('history-single')
+        if isinstance(real, dict):
+            res.crashes.append(real); continue
+        judge_history(res, real, exp, ext is not None, 'single connection, reply extension %r' % ext, js)
+        fresh[ext] = (js, line, real, model, exp)
+    coreutil.check_corr(res, pairs)
+    # reconnects: every ordered pair (quick: a sample of triples too)
+    chains, meta = [], []
+    for a in EXTS:
+        for b in EXTS:
+            chains.append([fresh[a][0], fresh[b][0]]); meta.append((a, b))
+    for _ in range(6 if tier == 'quick' else 60):
+        tri = [rng.choice(EXTS) for _ in range(3)]
+        chains.append([fresh[x][0] for x in tri]); meta.append(tuple(tri))
+    traces = runner.parallel_map('coreutil', 'real_chain', chains, chunk=8)
+    for ch, tr, m in zip(chains, traces, meta):
+        res.case(('hist-chain', m), nontrivial=True); res.count('history-chain%d' % len(m))
+        if isinstance(tr, dict):
+            res.crashes.append(tr); continue
+        for k, ext in enumerate(m):
+            js, line, real, model, exp = fresh[ext]
+            what = 'connection %d of %d on one WebSocket object, reply extensions %r' % (k + 1, len(m), list(m))
+            judge_history(res, tr[k], exp, ext is not None, what, dict(previous=ch[:k], next=ch[k]))
+            res.traces_validated += 1
+            if model is not None and tr[k] != model:
+                res.diffs.append(dict(input=line[:2000], real=tr[k][-1000:], model=model[-1000:], scenario=js, previous=ch[:k]))
+
 def explore(res, tier, seed, model_ok=True):
     import gencheck   # differential test of the translated code (Generated/Code.lean) against the original Python
     gencheck.run(res, 'C03', tier, seed, model_ok)
@@ -277,6 +364,8 @@ def explore(res, tier, seed, model_ok=True):
                 'exhaustive: mask_payload on 4 lanes x 256 key bytes x 256 data bytes; '
                 'frame level: the real Frame.build (all 16 FIN/RSV combinations, lengths on both sides of 126 and 65536, every key byte value in every lane) against the model and against the independent decoder, '
                 'the model\'s specification decoder against the independent decoder on valid frames, frame sequences and header malformations (unmasked, truncated, non-minimal lengths, 2^63); '
+                'histories: 8 calls (compressed and not, control frames) in one connection under 7 reply-extension spellings (window bits, no_context_takeover either side, none), inflated by a peer configured from the REPLY BYTES, '
+                'and the same on ONE WebSocket object connected 2 or 3 times with every ordered pair of negotiations (each connection judged by its own negotiation, and against the model of a fresh connection); '
                 'non-trivial = every call; distinct by call')
     bad = real_mask_table(None)
     res.exhaustive['mask_lane_key_byte'] = 4 * 256 * 256
@@ -354,6 +443,7 @@ def explore(res, tier, seed, model_ok=True):
             fail('unmasked payload differs from the caller\'s data'); continue
     coreutil.check_corr(res, pairs)
     explore_frames(res, tier, rng, model_ok)
+    explore_histories(res, tier, rng, model_ok)
     res.samples += [pairs[0][1][-200:], pairs[len(pairs) // 2][1][-200:]]
 
 
@@ -365,6 +455,10 @@ def replay(rp):
         print('Frame.build(%s, %s, bits=%s, masking_key=%s) -> %s' % (op, p, bits, k, out[:400]))
         if all(c in '0123456789abcdef' for c in out):
             print('independent decoder: %s' % (ref_decode_line(bytes.fromhex(out)),))
+        return 0
+    if isinstance(inp, dict) and 'previous' in inp:
+        for t in coreutil.real_chain(inp['previous'] + [inp['next']]):
+            print(t)
         return 0
     if isinstance(inp, list) and len(inp) == 2 and rp.get('cls') == 'mask-table':
         print('mask_payload(%s, %s) -> %s' % (inp[0], inp[1], real_mask(inp)))
